@@ -251,7 +251,7 @@ class SDELogqp(BaseSDE):
         except AttributeError as e:
             # TODO: relax this requirement, and use f_and_g, f_and_g_prod, f_and_g_and_h and f_and_g_prod_and_h if
             #  they're available.
-            raise AttributeError("If using logqp then drift, diffusion and prior drift must all be specified.") from e
+            raise ValueError("If using logqp then drift, diffusion and prior drift must all be specified.") from e
 
         # Make this method selection a one-time cost.
         if sde.noise_type == NOISE_TYPES.diagonal:
